@@ -186,6 +186,10 @@ def css_parse_string(css, *a, **k):
             if name in seen:
                 raise ModelError(f"CSS property {name!r} given twice in one rule (cascade order is outside the model)")
             seen.add(name)
+            if re.fullmatch(r"\s*\[[^\[\](){};]*\]\s*", val):
+                # a bracketed block (what SAMIWriter writes for a 'classes' list: classes: ['emph']) is no CSS value: cssutils
+                # reports it to its log and DROPS the declaration (observed at development time, cssutils 2.x)
+                continue
             props.append(CssProperty(name, _value(val)))
         rules.append(CssRule(sel, props))
     if text[pos:].strip():
